@@ -332,17 +332,17 @@ fn run_case(c: &Case, t: &mut Tally) {
 // ------------------------------------------------------------------------------------
 // Families
 
-/// All subsets of 1..=256 of size ≤ k (≥ lo) whose smallest element is `a` (a = 0: the empty set).
-fn subsets_with_min(a: u16, lo: usize, k: usize, f: &mut dyn FnMut(&[u16])) {
-    fn rec(cur: &mut Vec<u16>, lo: usize, k: usize, f: &mut dyn FnMut(&[u16])) {
+/// All subsets of `universe` (ascending slot numbers) with lo..=k elements whose smallest element is
+/// universe[a-1] (a = 0: the empty set).
+fn subsets_with_min(universe: &[u16], a: usize, lo: usize, k: usize, f: &mut dyn FnMut(&[u16])) {
+    fn rec(universe: &[u16], cur: &mut Vec<u16>, next: usize, lo: usize, k: usize, f: &mut dyn FnMut(&[u16])) {
         if cur.len() >= lo {
             f(cur);
         }
         if cur.len() < k {
-            let from = *cur.last().unwrap() + 1;
-            for n in from..=256 {
-                cur.push(n);
-                rec(cur, lo, k, f);
+            for n in next..universe.len() {
+                cur.push(universe[n]);
+                rec(universe, cur, n + 1, lo, k, f);
                 cur.pop();
             }
         }
@@ -353,16 +353,32 @@ fn subsets_with_min(a: u16, lo: usize, k: usize, f: &mut dyn FnMut(&[u16])) {
         }
         return;
     }
-    let mut cur = vec![a];
-    rec(&mut cur, lo, k, f);
+    let mut cur = vec![universe[a - 1]];
+    rec(universe, &mut cur, a, lo, k, f);
+}
+
+fn all_slots() -> Vec<u16> {
+    (1..=256).collect()
+}
+
+/// bit positions {0,1,15,30,31} of every group: 40 slots
+fn boundary_slots() -> Vec<u16> {
+    let mut v = Vec::new();
+    for g in 0..8u16 {
+        for p in [0u16, 1, 15, 30, 31] {
+            v.push(g * 32 + p + 1);
+        }
+    }
+    v
 }
 
 #[derive(Clone, Debug)]
 enum Task {
     /// meta × clip kind × one set list (shape indices)
     Lists { meta: u8, clip: u8 },
-    /// slot subsets with smallest element `a`, sizes lo..=k, as present or absent slots
-    Subsets { absent: bool, a: u16, lo: usize, k: usize, label: bool, scheme: u8, ctx: u8 },
+    /// slot subsets (of all 256 slots, or of the 40 boundary slots) whose smallest element is the a-th
+    /// slot of the universe, sizes lo..=k, as present or absent slots
+    Subsets { boundary: bool, absent: bool, a: u16, lo: usize, k: usize, label: bool, scheme: u8, ctx: u8 },
     /// group g: every subset of bit positions {0,1,15,30,31}; other groups empty / full
     OneGroup { g: u8, full_bg: bool, label: bool, scheme: u8, ctx: u8 },
     /// all 256 whole-group patterns
@@ -387,10 +403,11 @@ fn run_task(task: &Task, t: &mut Tally) {
                 }
             }
         }
-        Task::Subsets { absent, a, lo, k, label, scheme, ctx } => {
+        Task::Subsets { boundary, absent, a, lo, k, label, scheme, ctx } => {
             let mut j: usize = 0;
-            let fam = format!("slots-{}-{}", if *lo == *k { format!("={}", k) } else { format!("le{}", k) }, if *absent { "absent" } else { "present" });
-            subsets_with_min(*a, *lo, *k, &mut |s: &[u16]| {
+            let fam = format!("slots-{}{}-{}", if *boundary { "boundary-" } else { "" }, if *lo == *k { format!("eq{}", k) } else { format!("le{}", k) }, if *absent { "absent" } else { "present" });
+            let universe = if *boundary { boundary_slots() } else { all_slots() };
+            subsets_with_min(&universe, *a as usize, *lo, *k, &mut |s: &[u16]| {
                 let pat = if *absent { Pat::Absent(s.to_vec()) } else { Pat::Present(s.to_vec()) };
                 let set = SetDesc { label: label_of(*label), pat, scheme: *scheme };
                 // the clip table rotates over all-None / even / odd / all-Some here; the single-None kinds are
@@ -442,7 +459,7 @@ fn tasks(thorough: bool) -> Vec<Task> {
                         if absent && scheme != 0 && !thorough && ctx != (a % 2) as u8 {
                             continue;
                         }
-                        v.push(Task::Subsets { absent, a, lo: 0, k: 2, label, scheme, ctx });
+                        v.push(Task::Subsets { boundary: false, absent, a, lo: 0, k: 2, label, scheme, ctx });
                     }
                 }
             }
@@ -461,11 +478,20 @@ fn tasks(thorough: bool) -> Vec<Task> {
         }
     }
     if thorough {
-        // every pattern with exactly 3 present / 3 absent slots; label, naming scheme and
+        // every pattern with exactly 3 present slots out of all 256; label, naming scheme and
         // embedding rotate with the smallest slot
-        for absent in [false, true] {
-            for a in 1..=254u16 {
-                v.push(Task::Subsets { absent, a, lo: 3, k: 3, label: a % 2 == 1, scheme: (a % 3) as u8, ctx: ((a / 2) % 2) as u8 });
+        for a in 1..=254u16 {
+            v.push(Task::Subsets { boundary: false, absent: false, a, lo: 3, k: 3, label: a % 2 == 1, scheme: (a % 3) as u8, ctx: ((a / 2) % 2) as u8 });
+        }
+        // every pattern with exactly 3 absent slots out of the 40 boundary slots (bit positions
+        // {0,1,15,30,31} of each group), full product of label, scheme and embedding
+        for label in [false, true] {
+            for scheme in 0..N_SCHEMES {
+                for ctx in 0..2 {
+                    for a in 1..=38u16 {
+                        v.push(Task::Subsets { boundary: true, absent: true, a, lo: 3, k: 3, label, scheme, ctx });
+                    }
+                }
             }
         }
     }
@@ -534,7 +560,7 @@ fn explore(ctx: &Ctx) -> Outcome {
         }
     }
     let mut o = total.into_outcome(
-        "every ASetFile of five families is serialized, re-read (BinArchive::from_bytes + ASetFile::from_archive), compared field-wise, measured, and re-serialized: (1) meta ∈ {None,\"\",\"meta\",\"日本\"} × 8 clip tables of 257 entries (all-None, all-Some, even/odd alternating, single None at 0/1/255/256) × ALL sequences of 0..=3 sets from six shapes (empty-unlabelled, empty-labelled, one-slot with empty name, last-slot-of-group, dense, sparse); (2) EVERY slot pattern with ≤2 present slots and (3) EVERY pattern with ≤2 absent slots, each × label {None,\"A\"} × 3 naming schemes (unique per slot / mixed empty, non-ASCII, repeated, equal to the label / all empty) × 2 embeddings (alone, between two other sets) — at the quick tier the ≤2-absent patterns under the two non-unique naming schemes take one embedding, alternating with the smallest absent slot — with meta rotating over its 4 values and the clip table over all-None/even/odd/all-Some; (4) for each of the 8 groups every subset of bit positions {0,1,15,30,31} against empty and full other groups; (5) all 256 whole-group on/off patterns. The thorough tier adds every pattern with exactly 3 present / 3 absent slots. non-trivial = the file contains at least one set",
+        "every ASetFile of five families is serialized, re-read (BinArchive::from_bytes + ASetFile::from_archive), compared field-wise, measured, and re-serialized: (1) meta ∈ {None,\"\",\"meta\",\"日本\"} × 8 clip tables of 257 entries (all-None, all-Some, even/odd alternating, single None at 0/1/255/256) × ALL sequences of 0..=3 sets from six shapes (empty-unlabelled, empty-labelled, one-slot with empty name, last-slot-of-group, dense, sparse); (2) EVERY slot pattern with ≤2 present slots and (3) EVERY pattern with ≤2 absent slots, each × label {None,\"A\"} × 3 naming schemes (unique per slot / mixed empty, non-ASCII, repeated, equal to the label / all empty) × 2 embeddings (alone, between two other sets) — at the quick tier the ≤2-absent patterns under the two non-unique naming schemes take one embedding, alternating with the smallest absent slot — with meta rotating over its 4 values and the clip table over all-None/even/odd/all-Some; (4) for each of the 8 groups every subset of bit positions {0,1,15,30,31} against empty and full other groups; (5) all 256 whole-group on/off patterns. The thorough tier adds every pattern with exactly 3 present slots (label, scheme and embedding rotating) and every pattern with exactly 3 absent slots among the 40 boundary slots (bit positions {0,1,15,30,31} of each group). non-trivial = the file contains at least one set",
         true,
         vec![
             ("families", Value::Object(fam_counts)),
